@@ -1,12 +1,39 @@
+// C05: `ego fmt` keeps programs and comments intact.
+//
+// Bounded-exhaustive: every expression production of the formatter's grammar
+// in every header / statement position, every statement form (alone and in
+// ordered pairs) in every block context, every top-level declaration form
+// (alone and in ordered pairs), comments in every token gap of base programs,
+// and the .ego corpus of the repository are formatted by the code behind
+// `ego fmt`; the original and the formatted text are both compiled and run and
+// must print the same; formatting must be idempotent and keep every comment.
 package main
 
 import (
 	"fmt"
 	"os"
-	"time"
+	"sort"
+	"strings"
 
 	"github.com/tucats/ego/internal/verifrt/egobatch"
+	"github.com/tucats/ego/internal/verifrt/report"
 )
+
+func fatal(msg string) { report.Fatal(msg) }
+
+// Witness is the self-contained replay record of a violation.
+type Witness struct {
+	Family    string `json:"family"`
+	Name      string `json:"name"`
+	Fragment  bool   `json:"fragment"`
+	Source    string `json:"source"`
+	Kind      string `json:"kind"`
+	Mode      string `json:"mode"`
+	Formatted string `json:"formatted,omitempty"`
+	Detail    string `json:"detail"`
+	Confirmed string `json:"confirmed_by_fresh_ego_process"`
+	File      string `json:"file,omitempty"`
+}
 
 func main() {
 	if len(os.Args) > 1 && os.Args[1] == "worker" {
@@ -15,19 +42,268 @@ func main() {
 		return
 	}
 
-	setup()
+	if len(os.Args) > 1 && os.Args[1] == "c05eval" {
+		evalWorkerMain()
 
-	src := "package main\nimport \"fmt\"\nfunc main() {\n    fmt.Println(\"hi\", 1+2)\n    print \"x\", 3\n    x := []int{1,2}\n    fmt.Println(x[5])\n}\n"
-	for i := 0; i < 3; i++ {
-		t0 := time.Now()
-		out := run(src)
-		fmt.Printf("%v %q\n", time.Since(t0), out)
+		return
 	}
 
-	t0 := time.Now()
-	for i := 0; i < 200; i++ {
-		run(src)
+	r := report.New("exploration")
+	scratch := os.Getenv("VERIF_SCRATCH")
+
+	if scratch == "" {
+		fatal("VERIF_SCRATCH is not set")
 	}
-	fmt.Println("200 runs", time.Since(t0))
-	os.Exit(2)
+
+	if r.Replay != "" {
+		replay(r, scratch)
+
+		return
+	}
+
+	thorough := r.Thorough()
+
+	var items []item
+
+	items = append(items, exprItems(thorough)...)
+	items = append(items, stmtItems(thorough)...)
+	items = append(items, declItems(thorough)...)
+	items = append(items, commentItems(thorough)...)
+
+	if only := os.Getenv("VERIF_C05_FAMILIES"); only != "" {
+		var keep []item
+
+		for _, it := range items {
+			if strings.Contains(","+only+",", ","+it.family+",") {
+				keep = append(keep, it)
+			}
+		}
+
+		items = keep
+	}
+
+	count := map[string]int{}
+	for _, it := range items {
+		count[it.family]++
+	}
+
+	fmt.Printf("c05: texts per family: %v\n", count)
+
+	if os.Getenv("VERIF_C05_COUNT") != "" {
+		os.Exit(2)
+	}
+
+	jobs := make([]Job, len(items))
+	for i, it := range items {
+		jobs[i] = Job{ID: i, Src: it.src, Frag: it.frag}
+	}
+
+	fmt.Printf("c05: %d generated texts\n", len(jobs))
+
+	res := judgeAll(scratch, jobs)
+
+	analyse(r, scratch, items, res)
+
+	corpus(r, scratch)
+
+	r.Rule("a case is one source text (generated: expression production x position, statement form or ordered pair x block context, " +
+		"declaration form or ordered pair, base program + comments in token gaps, each as program and as fragment; corpus: one .ego file); " +
+		"distinct = distinct source text that the compiler accepts")
+	r.Assume("the in-process runner repeats what `ego run <file>` (programs) and `ego run` with a piped script (fragments) do; every reported witness is re-judged with the real `ego fmt` / `ego run` / `ego test` in fresh processes and dropped if it does not reproduce")
+	r.Assume("comments of a text are found by Go's lexical rules (own scanner), compared after trimming each line")
+	r.Assume("output is compared after replacing `line N[:M]` positions; programs that observe their own line numbers (runtime.Frames, @line) are outside the statement and skipped in the corpus")
+
+	r.Finish()
+}
+
+// census prints acceptance and finding statistics per family (development aid
+// and part of the run log).
+func analyse(r *report.R, scratch string, items []item, res []Res) {
+	byName := map[string]int{}
+	for i, it := range items {
+		byName[it.name] = i
+	}
+
+	type fam struct{ n, accepted, rejected, changed, died, runs int }
+
+	fams := map[string]*fam{}
+	rejects := map[string][]string{}
+
+	hasKind := func(i int, kind string) bool {
+		for _, f := range res[i].Findings {
+			if f.Kind == kind {
+				return true
+			}
+		}
+
+		return false
+	}
+
+	type cand struct {
+		i int
+		f Finding
+	}
+
+	cells := map[string][]cand{}
+	attributed := 0
+	died := 0
+
+	for i, it := range items {
+		fm := fams[it.family]
+		if fm == nil {
+			fm = &fam{}
+			fams[it.family] = fm
+		}
+
+		fm.n++
+		fm.runs += res[i].Runs
+
+		r.Eval(1)
+
+		if res[i].Died != "" {
+			fm.died++
+			died++
+
+			if strings.Contains(res[i].Died, "run-formatted") {
+				// the formatted program does not terminate inside the instruction budget, the original did
+				f := Finding{Kind: "changes-program", Mode: "program", Detail: "the formatted text does not terminate: " + res[i].Died}
+				cells["changes-program:"+it.cell] = append(cells["changes-program:"+it.cell], cand{i, f})
+			} else {
+				r.Capped("a judging worker did not survive " + it.name + ": " + res[i].Died)
+			}
+
+			continue
+		}
+
+		if !res[i].Accepted {
+			fm.rejected++
+
+			if len(rejects[it.family]) < 12 {
+				rejects[it.family] = append(rejects[it.family], it.name+": "+res[i].Reject)
+			}
+
+			continue
+		}
+
+		fm.accepted++
+
+		if it.nontriv {
+			r.Distinct(it.src)
+		}
+
+		if res[i].Changed {
+			fm.changed++
+		}
+
+		for _, f := range res[i].Findings {
+			explained := false
+
+			for _, ex := range it.explain {
+				if j, ok := byName[ex]; ok && hasKind(j, f.Kind) {
+					explained = true
+
+					break
+				}
+			}
+
+			if explained {
+				attributed++
+
+				continue
+			}
+
+			key := f.Kind + ":" + it.cell
+			cells[key] = append(cells[key], cand{i, f})
+		}
+	}
+
+	names := make([]string, 0, len(fams))
+	for k := range fams {
+		names = append(names, k)
+	}
+
+	sort.Strings(names)
+
+	for _, k := range names {
+		f := fams[k]
+		fmt.Printf("c05: family %-9s texts=%d accepted=%d rejected=%d changed-by-fmt=%d runs=%d died=%d\n", k, f.n, f.accepted, f.rejected, f.changed, f.runs, f.died)
+		r.Add("texts_"+k, int64(f.n))
+		r.Add("accepted_"+k, int64(f.accepted))
+		r.Add("programs_run", int64(f.runs))
+	}
+
+	if os.Getenv("VERIF_C05_CENSUS") != "" {
+		for _, k := range names {
+			for _, s := range rejects[k] {
+				fmt.Println("c05: rejected", s)
+			}
+		}
+	}
+
+	r.Add("findings_counted_under_a_smaller_text", int64(attributed))
+
+	keys := make([]string, 0, len(cells))
+	for k := range cells {
+		keys = append(keys, k)
+	}
+
+	sort.Strings(keys)
+
+	for _, key := range keys {
+		cs := cells[key]
+
+		sort.SliceStable(cs, func(a, b int) bool {
+			if items[cs[a].i].size != items[cs[b].i].size {
+				return items[cs[a].i].size < items[cs[b].i].size
+			}
+
+			return items[cs[a].i].name < items[cs[b].i].name
+		})
+
+		// confirm the smallest witnesses in fresh processes of the real binary
+		reported := false
+		tried := 0
+
+		for _, c := range cs {
+			if tried >= 3 {
+				break
+			}
+
+			tried++
+
+			it := items[c.i]
+			ok, how := confirm(scratch, it.src, it.frag, c.f)
+
+			if os.Getenv("VERIF_C05_CENSUS") != "" {
+				fmt.Printf("c05: cell %s n=%d witness %s confirmed=%v (%s)\n      %s\n", key, len(cs), it.name, ok, how, c.f.Detail)
+			}
+
+			if !ok {
+				r.Add("witnesses_not_reproduced_by_fresh_process", 1)
+
+				continue
+			}
+
+			w := Witness{Family: it.family, Name: it.name, Fragment: it.frag, Source: it.src, Kind: c.f.Kind, Mode: c.f.Mode,
+				Formatted: c.f.Fmt, Detail: c.f.Detail, Confirmed: how}
+
+			for range cs {
+				r.Violation(key, it.size, w, it.name+": "+c.f.Detail)
+			}
+
+			reported = true
+
+			break
+		}
+
+		if !reported {
+			fmt.Printf("c05: cell %s (%d texts) not reproduced by fresh ego processes, not reported\n", key, len(cs))
+		}
+	}
+
+	if len(items) > 0 {
+		r.Sample(map[string]any{"name": items[0].name, "source": items[0].src})
+		r.Sample(map[string]any{"name": items[len(items)/2].name, "source": items[len(items)/2].src})
+		r.Sample(map[string]any{"name": items[len(items)-1].name, "source": items[len(items)-1].src})
+	}
 }
